@@ -675,6 +675,10 @@ func c16Y2(l *core.Ledger) {
 				n++
 				full := fn.Pkg().Path() + "." + fn.Name()
 				if banned[full] || fn.Pkg().Path() == "math/rand" || fn.Pkg().Path() == "crypto/rand" {
+					if ambientOnlyGatesDiagnostics(l, pk, full) {
+						l.Note("C16-Y2: %s %s is read, but its value only decides whether diagnostics are written (log / stderr); it cannot reach the generated output", l.Prog.Pos(id.Pos()), full)
+						return true
+					}
 					hits = append(hits, l.Prog.Pos(id.Pos())+" "+full)
 				}
 				return true
